@@ -245,6 +245,7 @@ class World(WorldBase):
                 "tvary": rng.random() < 0.2,
                 "grow": rng.random() < 0.15,
                 "vanish": rng.random() < 0.4,
+                "int_cell": exact and rng.random() < 0.35,
                 "subseed": rng.randrange(1 << 40),
             }
             if not exact and rng.random() < 0.15:
